@@ -8,6 +8,7 @@ import (
 	"google.golang.org/protobuf/proto"
 	"google.golang.org/protobuf/reflect/protoreflect"
 	"google.golang.org/protobuf/runtime/protoiface"
+	"google.golang.org/protobuf/runtime/protoimpl"
 	"google.golang.org/protobuf/verif/core"
 	"google.golang.org/protobuf/verif/gen"
 )
@@ -18,10 +19,11 @@ func init() {
 		Rule:   "cases: message trees over every linked type that (transitively) has required fields (proto2 required, editions LEGACY_REQUIRED, open/hybrid/opaque, lazy variants, message extensions, dynamicpb twins): (i) fully initialised trees, (ii) the same tree with exactly one required field cleared, for every required position in the tree (systematic), (iii) random subsets of required fields at every depth; each checked through CheckInitialized, binary Marshal/Unmarshal (lazy and eager, incl. the initialized flag), protojson and prototext Marshal/Unmarshal, all without AllowPartial; distinct = distinct (type, deterministic bytes); non-trivial = tree holds at least one message with required fields",
 		Assume: []string{"reference walk missingRequired() over protoreflect Has/Range", "content is otherwise JSON/text representable (generator restriction), so an error can only stem from required fields"},
 		Batches: func(tier string) []core.Batch {
+			tag := core.Batch{Cfg: "base", Name: "tagonly", Kind: "tagonly"}
 			if tier == "thorough" {
-				return append(stdBatches([]string{"base"}, 8), stdBatches([]string{"refl"}, 4)...)
+				return append(append(stdBatches([]string{"base"}, 8), stdBatches([]string{"refl"}, 4)...), tag)
 			}
-			return stdBatches([]string{"base"}, 8)
+			return append(stdBatches([]string{"base"}, 8), tag)
 		},
 		Gates: func(tier string) map[string]int64 {
 			return map[string]int64{"trees": 2000, "missing_trees": 800, "complete_trees": 300, "single_cleared": 300, "entry:binary-unmarshal-lazy": 1000, "missing_at_depth:2": 50, "missing_in:list": 20, "missing_in:map": 20, "missing_in:extension": 10}
@@ -35,9 +37,9 @@ func init() {
 func missingRequired(m protoreflect.Message, depth int, pos string, where *[]string) bool {
 	md := m.Descriptor()
 	missing := false
-	rn := md.RequiredNumbers()
-	for i := 0; i < rn.Len(); i++ {
-		if !m.Has(md.Fields().ByNumber(rn.Get(i))) {
+	// by cardinality, field by field (not through RequiredNumbers, which the library itself uses)
+	for i := 0; i < md.Fields().Len(); i++ {
+		if fd := md.Fields().Get(i); fd.Cardinality() == protoreflect.Required && !m.Has(fd) {
 			missing = true
 			*where = append(*where, fmt.Sprintf("%d|%s", depth, pos))
 		}
@@ -115,7 +117,79 @@ func requiredSites(m protoreflect.Message, out *[]reqSite) {
 	})
 }
 
+// ---- struct-tag-only messages with required fields, two of them on a cycle ----
+
+type C10TagReq struct {
+	A *int32  `protobuf:"varint,1,req,name=a"`
+	B *string `protobuf:"bytes,2,opt,name=b"`
+}
+
+func (*C10TagReq) Reset()         {}
+func (*C10TagReq) String() string { return "C10TagReq" }
+func (*C10TagReq) ProtoMessage()  {}
+
+// C10CycA reaches the required field of C10CycR through its second field only;
+// its first field leads into the cycle A -> B -> A.
+type C10CycA struct {
+	B *C10CycB   `protobuf:"bytes,1,opt,name=b"`
+	R *C10CycR   `protobuf:"bytes,2,opt,name=r"`
+	L []*C10CycB `protobuf:"bytes,3,rep,name=l"`
+}
+
+func (*C10CycA) Reset()         {}
+func (*C10CycA) String() string { return "C10CycA" }
+func (*C10CycA) ProtoMessage()  {}
+
+type C10CycB struct {
+	A *C10CycA `protobuf:"bytes,1,opt,name=a"`
+	N *int64   `protobuf:"varint,2,opt,name=n"`
+}
+
+func (*C10CycB) Reset()         {}
+func (*C10CycB) String() string { return "C10CycB" }
+func (*C10CycB) ProtoMessage()  {}
+
+type C10CycR struct {
+	X *int32   `protobuf:"varint,1,req,name=x"`
+	Y *C10CycA `protobuf:"bytes,2,opt,name=y"`
+}
+
+func (*C10CycR) Reset()         {}
+func (*C10CycR) String() string { return "C10CycR" }
+func (*C10CycR) ProtoMessage()  {}
+
+// c10TagOnly: the cycle's entry type is used first (as a program whose first
+// message is a C10CycA would), then trees rooted at every type.
+func c10TagOnly(c *core.Ctx) {
+	wrap := func(v any) protoreflect.MessageType { return protoimpl.X.ProtoMessageV2Of(v).ProtoReflect().Type() }
+	var a, bb, rr, tr protoreflect.MessageType
+	if !c.NoPanic("required:tagonly-wrap-panic", nil, func() {
+		a = wrap(&C10CycA{})
+		_ = proto.CheckInitialized(a.New().Interface())
+		bb, rr, tr = wrap(&C10CycB{}), wrap(&C10CycR{}), wrap(&C10TagReq{})
+	}) {
+		return
+	}
+	for ti, mt := range []protoreflect.MessageType{bb, a, rr, tr} {
+		name := string(mt.Descriptor().FullName())
+		c.Count("tagonly_types")
+		for k := 0; k < c.Scale(150, 2000); k++ {
+			r := c.Rng(uint64(0x10a)<<32 | uint64(ti)<<24 | uint64(k))
+			dyn := k%4 == 3
+			m := newOf(mt, dyn)
+			fo := gen.MsgOpts{JSONSafe: true, Density: 40 + 15*(k%4), MaxDepth: 2 + k%4, NoRequired: k%2 == 0}
+			gen.Fill(r, m, fo)
+			c.Count("tagonly_trees")
+			c10Check(c, mt, name, m, dyn, "tagonly")
+		}
+	}
+}
+
 func runC10(c *core.Ctx, b core.Batch) {
+	if b.Kind == "tagonly" {
+		c10TagOnly(c)
+		return
+	}
 	var types []protoreflect.MessageType
 	for _, mt := range codecTypes(b) {
 		if hasRequiredAnywhere(mt.Descriptor()) {
@@ -244,6 +318,17 @@ func c10Check(c *core.Ctx, mt protoreflect.MessageType, name string, m protorefl
 				_, e := proto.Marshal(m3.Interface())
 				verdict(entry+"+Marshal", e)
 			}
+		}
+		// Merge-decoding into the tree: the verdict is about the resulting message
+		// (empty input leaves it as it is; its own encoding merged into it keeps
+		// every required field that was set and none that was not)
+		for _, in := range [][]byte{nil, enc} {
+			dst := proto.Clone(m.Interface())
+			entry := "merge-decode-empty-input"
+			if in != nil {
+				entry = "merge-decode-own-encoding"
+			}
+			verdict(entry, proto.UnmarshalOptions{Merge: true}.Unmarshal(in, dst))
 		}
 		// JSON
 		if js, e := (protojson.MarshalOptions{AllowPartial: true}).Marshal(m.Interface()); e == nil {
